@@ -2000,7 +2000,12 @@ class TwoDResponse(TwoDSpectrumBase, Saveable):
                                   time_start=self.yaxis.time_start)                
             self.yaxis = yaxis            
                 
-            dtype_saved = self.current_dtype
+            # the whole flag is saved: a pathway view [type, tag] is still
+            # in force after the trimming
+            if self.current_tag is None:
+                dtype_saved = self.current_dtype
+            else:
+                dtype_saved = [self.current_dtype, self.current_tag]
             
             if self.storage_resolution == "pathways":
                 for typ in _ptypes:
